@@ -189,6 +189,9 @@ func (g *G) Num(d int) Expr {
 	if d <= 0 || g.R.Intn(5) == 0 {
 		return g.NumLeaf()
 	}
+	if g.R.Intn(40) == 0 {
+		return g.edgeArith()
+	}
 	return g.maybeParen(&Bin{Op: arithOps[g.R.Intn(len(arithOps))], L: g.Num(d - 1), R: g.Num(d - 1 - g.R.Intn(2))})
 }
 
@@ -249,6 +252,21 @@ func (g *G) nanPair(d int) Expr {
 		n, o = o, n
 	}
 	return &Bin{Op: cmpOps[g.R.Intn(6)], L: n, R: o}
+}
+
+// edgeArith: integer arithmetic is 64-bit wrapping with truncating division - also at the very edge
+// (MinInt64 / -1, MinInt64 * -1, MaxInt64 + 1, 0 - MinInt64 ...).
+func (g *G) edgeArith() Expr {
+	a := []int64{-9223372036854775808, 9223372036854775807, -9223372036854775807, 4611686018427387904}[g.R.Intn(4)]
+	b := []int64{-1, 1, 2, -2, 9223372036854775807, -9223372036854775808}[g.R.Intn(6)]
+	mk := func(x int64) Expr {
+		var l Expr = &Lit{V: x, Text: strconv.FormatInt(x, 10)}
+		if !g.NoCalls && g.R.Intn(3) == 0 {
+			return &CallE{Name: "idn", Args: []Expr{l}}
+		}
+		return l
+	}
+	return &Bin{Op: []string{"/", "*", "+", "-"}[g.R.Intn(4)], L: mk(a), R: mk(b)}
 }
 
 // mixedPair compares a signed integer at the edge of its range with an unsigned one at the same edge:
